@@ -35,6 +35,20 @@ type fileInfo struct {
 
 func newFileInfos(program *loader.Program, pkgInfo *loader.PackageInfo) []*fileInfo {
 	files := []*fileInfo{}
+	// The functions that the user wrote by hand. One of them can bear the name of a function of an old derived.gen.go,
+	// which the type checker then takes for the declaration, since it meets that file first.
+	byHand := make(map[string]struct{})
+	for _, astFile := range pkgInfo.Files {
+		file := program.Fset.File(astFile.Pos())
+		if file == nil || filepath.Base(file.Name()) == derivedFilename {
+			continue
+		}
+		for _, d := range astFile.Decls {
+			if fn, isFunc := d.(*ast.FuncDecl); isFunc && fn.Recv == nil {
+				byHand[fn.Name.Name] = struct{}{}
+			}
+		}
+	}
 	for i := range pkgInfo.Files {
 		astFile := pkgInfo.Files[i]
 		file := program.Fset.File(astFile.Pos())
@@ -49,7 +63,7 @@ func newFileInfos(program *loader.Program, pkgInfo *loader.PackageInfo) []*fileI
 			continue
 		}
 
-		f := &finder{program, pkgInfo, nil, nil, make(map[string]struct{})}
+		f := &finder{program, pkgInfo, nil, nil, make(map[string]struct{}), byHand}
 		for _, d := range astFile.Decls {
 			ast.Walk(f, d)
 		}
@@ -79,6 +93,7 @@ type finder struct {
 	undefined []*ast.CallExpr
 	derived   []*ast.CallExpr
 	funcNames map[string]struct{}
+	byHand    map[string]struct{}
 }
 
 func (f *finder) Visit(node ast.Node) (w ast.Visitor) {
@@ -104,7 +119,7 @@ func (f *finder) Visit(node ast.Node) (w ast.Visitor) {
 		return f
 	}
 	_, filename := filepath.Split(file.Name())
-	if filename == derivedFilename {
+	if _, isByHand := f.byHand[fn.Name]; filename == derivedFilename && !isByHand {
 		f.derived = append(f.derived, call)
 		return f
 	}
